@@ -91,10 +91,50 @@ Theorem c12_coverage : forall n_genes pairs marks n trace st,
 Proof. exact coverage. Qed.
 Print Assumptions c12_coverage.
 
+(* the hypothesis is decidable on a concrete table: the boolean the harness evaluates on every
+   generated (thinned) table implies it *)
+Theorem c12_hypothesis_checkable : forall pd,
+  both_ways_free pd = true -> no_gene_both_ways (marks_of pd).
+Proof. exact both_ways_free_sound. Qed.
+Print Assumptions c12_hypothesis_checkable.
+
+(* the executable statement spec_c12 that the harness evaluates on the lists returned by the
+   implementation (no duplicates; every gene a gene of the thinned array marking a slot of the
+   parent; coverage >= min(2n, available) per pair) holds on the result of every legal run *)
+Theorem c12_spec_holds : forall n_genes pairs marks n trace st,
+  no_gene_both_ways marks ->
+  run n_genes pairs marks n (start n_genes pairs marks n) trace = Some st ->
+  spec_c12 n_genes pairs marks n (chosen st) = true.
+Proof. exact spec_holds. Qed.
+Print Assumptions c12_spec_holds.
+
+(* the order in which the pairs are indexed is irrelevant: a legal run under one order is a
+   legal run WITH THE SAME CHOICE SEQUENCE under any permutation of the pairs; the selected
+   SET, the per-slot counts and the filled flags coincide (only the order in which the
+   desperate phase emits its genes may differ) *)
+Theorem c12_pair_order_irrelevant : forall n_genes marks n pairs pairs',
+  Permutation pairs pairs' -> forall trace st,
+  run n_genes pairs marks n (start n_genes pairs marks n) trace = Some st ->
+  exists st', run n_genes pairs' marks n (start n_genes pairs' marks n) trace = Some st' /\
+              Permutation (chosen st) (chosen st') /\
+              (forall s, counts st s = counts st' s) /\ (forall s, filled st s = filled st' s).
+Proof. exact pair_order_irrelevant. Qed.
+Print Assumptions c12_pair_order_irrelevant.
+
+(* ... and the two index arrays the pipeline can produce for one parent (sorted global indices
+   on the full table = "behemoth"; positions in leaves_to_compare order after
+   downsample_pairs_to_other) are such permutations *)
+Theorem c12_behemoth_order_is_permutation : forall rm t parent i1 i2,
+  parent_idx rm t parent true = Some i1 -> parent_idx rm t parent false = Some i2 -> Permutation i1 i2.
+Proof. exact parent_idx_perm. Qed.
+Print Assumptions c12_behemoth_order_is_permutation.
+
 (* ---------------- non-vacuity: 4 genes, 2 pairs (the table of DESIGN B.3) ---------------- *)
 Definition ex_pd : list (list nat * list nat) := [([1], [0; 2]); ([0], [2; 3])].
 Example ex_both_ways : both_ways_free ex_pd = true.
 Proof. reflexivity. Qed.
+Example ex_hypothesis : no_gene_both_ways (marks_of ex_pd).
+Proof. apply both_ways_free_sound. reflexivity. Qed.
 (* n = 1: no pair is desperate (both have 3 markers); [2; 0] is a legal run that stops exactly there
    (both pairs then hold 2 = 2n markers), [0; 1; 2] is another *)
 Example ex_run_n1 :
@@ -108,4 +148,15 @@ Proof. vm_compute. reflexivity. Qed.
 (* an illegal choice (gene 3 does not maximise the utility) is refused *)
 Example ex_illegal :
   run 4 [0; 1] (marks_of ex_pd) 1 (start 4 [0; 1] (marks_of ex_pd) 1) [3] = None.
+Proof. vm_compute. reflexivity. Qed.
+(* the two pair orders: same choice sequence accepted, n = 3 makes both pairs desperate and the
+   desperate phase emits [0;1;2;3] under one order and [0;2;3;1] under the other *)
+Example ex_order :
+  (chosen (start 4 [0; 1] (marks_of ex_pd) 3), chosen (start 4 [1; 0] (marks_of ex_pd) 3))
+  = ([0; 1; 2; 3], [0; 2; 3; 1]).
+Proof. vm_compute. reflexivity. Qed.
+(* coverage is tight: with n = 1 the run [2; 0] leaves pair 0 with exactly 2 = min(2n, 3) markers *)
+Example ex_coverage_tight :
+  option_map (fun st => (covered (marks_of ex_pd) (chosen st) 0, covered (marks_of ex_pd) (genes 4) 0))
+             (run 4 [0; 1] (marks_of ex_pd) 1 (start 4 [0; 1] (marks_of ex_pd) 1) [2; 0]) = Some (2, 3).
 Proof. vm_compute. reflexivity. Qed.
